@@ -169,6 +169,10 @@ def check(case, rec):
 
     xmax = max(v[0] for p in case["props"] for v in p)
     ymax = max(v[1] for p in case["props"] for v in p)
+    if min(xmax, ymax) < case["b_min"]:
+        # narrower than one spacing: the grid generator divides by zero (lots that narrow raise by design, see C02's quantifier)
+        rec.cls("lot_narrower_than_the_minimum_spacing(skipped)")
+        return
     grids_nested, _ = bi_rectangle_nested(xmax, ymax, case["b_min"], case["b_max_x"], case["b_max_y"])
     if not grids_nested or any(len(g) == 0 for g in grids_nested):
         rec.cls("no_grid(skipped)")
